@@ -6,6 +6,13 @@
 
 #include "values.h"
 
+/* end point is outside of range: its fraction must not vanish (0 = no cut/trim) */
+static int linepartFraction(double val)
+{
+	int code = mpt_linepart_code(val);
+	return code ? code : 1;
+}
+
 /*!
  * \ingroup mptPlot
  * \brief get line part
@@ -43,13 +50,13 @@ extern void mpt_linepart_linear(MPT_STRUCT(linepart) *part, const double *from, 
 	/* partial first */
 	if (*from < min) {
 		if (len >= 2 && from[1] >= min && from[1] <= max) {
-			part->_cut = mpt_linepart_code((min-from[0])/(from[1]-from[0]));
+			part->_cut = linepartFraction((min-from[0])/(from[1]-from[0]));
 			part->raw = part->usr = 2; from += 2; len -= 2;
 		}
 	}
 	else if (*from > max) {
 		if (len >= 2 && from[1] >= min && from[1] <= max) {
-			part->_cut = mpt_linepart_code((from[0]-max)/(from[0]-from[1]));
+			part->_cut = linepartFraction((from[0]-max)/(from[0]-from[1]));
 			part->raw = part->usr = 2; from += 2; len -= 2;
 		}
 	}
@@ -58,14 +65,14 @@ extern void mpt_linepart_linear(MPT_STRUCT(linepart) *part, const double *from, 
 	while (len) {
 		if (*from < min) {
 			if (part->usr) {
-				part->_trim = mpt_linepart_code((min-from[0])/(from[-1]-from[0]));
+				part->_trim = linepartFraction((min-from[0])/(from[-1]-from[0]));
 				++part->usr;
 			}
 			break;
 		}
 		if (*from > max) {
 			if (part->usr) {
-				part->_trim = mpt_linepart_code((from[0]-max)/(from[0]-from[-1]));
+				part->_trim = linepartFraction((from[0]-max)/(from[0]-from[-1]));
 				++part->usr;
 			}
 			break;
